@@ -1,6 +1,7 @@
 import Driver.Proto
 import LadimModel.IBM.Sedimentation
 import LadimModel.IBM.Bio
+import LadimModel.IBM.Memory
 namespace Driver
 open Ladim
 
@@ -99,10 +100,23 @@ def hVpsZ : Handler := do
   let m ← getF; let u ← getF
   pure (outF (Bio.vpsZ m u))
 
+/-- `vps.update maxDepth dt u fu fv z age alive` -/
+def hVpsUpdate : Handler := do
+  let m ← getF; let dt ← getF; let u ← getF; let fu ← getF; let fv ← getF
+  let z ← getF; let age ← getF; let alive ← getB
+  let p := Bio.vpsUpdate m dt u fu fv ⟨z, age, alive⟩
+  pure s!"{outF p.z} {outF p.age} {outB p.alive}"
+
+/-- `mem.stuck n (pid x y)^n pid x y` -/
+def hMemStuck : Handler := do
+  let mem ← getList (do let p ← getN; let x ← getF; let y ← getF; pure (⟨p, x, y⟩ : Memory.Rec Float))
+  let p ← getN; let x ← getF; let y ← getF
+  pure (outB (Memory.stuck mem ⟨p, x, y⟩))
+
 def ibmHandlers : List (String × Handler) :=
   [("sed.update", hSedUpdate), ("mine.update", hMineUpdate), ("sed.tau", hSedTau),
    ("egg.update", hEgg), ("lice.update", hLice), ("larva.update", hLarva),
    ("sandeel.z", hSandeelZ), ("eel.z", hEelZ), ("shrimp.vert", hShrimpVert),
-   ("shrimp.growth", hShrimpGrowth), ("vps.z", hVpsZ)]
+   ("shrimp.growth", hShrimpGrowth), ("vps.z", hVpsZ), ("vps.update", hVpsUpdate), ("mem.stuck", hMemStuck)]
 
 end Driver
